@@ -11,6 +11,10 @@ STREAMS = {
                overlay={'cmd/thermal-recorder/zz_verif_zz_main.go': 'thermal-recorder/zz_verif_main.go',
                         'cmd/thermal-recorder/zz_verif_fs.go': 'thermal-recorder/zz_verif_fs.go',
                         'cmd/thermal-recorder/zz_verif_e2e.go': 'thermal-recorder/zz_verif_e2e.go'}),
+    'names': dict(daemon='./cmd/thermal-recorder', confirm=True,
+                  overlay={'cmd/thermal-recorder/zz_verif_zz_main.go': 'thermal-recorder/zz_verif_main.go',
+                           'cmd/thermal-recorder/zz_verif_fs.go': 'thermal-recorder/zz_verif_fs.go',
+                           'cmd/thermal-recorder/zz_verif_e2e.go': 'thermal-recorder/zz_verif_e2e.go'}),
     'e2e': dict(daemon='./cmd/thermal-recorder', confirm=True,
                 overlay={'cmd/thermal-recorder/zz_verif_zz_main.go': 'thermal-recorder/zz_verif_main.go',
                          'cmd/thermal-recorder/zz_verif_fs.go': 'thermal-recorder/zz_verif_fs.go',
@@ -71,7 +75,7 @@ PROPS = {
         assumptions=['non-decreasing clock', 'the zero time.Time of a fresh limiter is further than any interval before the first arrival'],
     ),
     'C05': dict(
-        lean=['Props.C05', 'Props.FactsWiring'],
+        lean=['Props.C05', 'Props.C05Composed', 'Props.PipeThr', 'Props.FactsWiring'],
         streams=['throttle', 'e2e'],
         rule='request/clock schedules in five phase styles (burst at one instant, camera-rate, churn at the tick boundary +-1 ns, long idles, '
              'one-clip refills) with scripted base-recorder failures in 35% of cases; the window monitor checks all O(n^2) windows of each case; '
@@ -81,7 +85,7 @@ PROPS = {
         assumptions=['non-decreasing clock', 'bucket-size*fps >= 1 and (min+preview)*fps >= 1 (the library panics on capacity 0; rate 0 is undefined)'],
     ),
     'C01': dict(
-        lean=['Props.C01', 'Props.C01Spec', 'Props.FactsProc'],
+        lean=['Props.C01', 'Props.C01Spec', 'Props.PipeThr', 'Props.FactsProc'],
         streams=['processor'],
         project={'processor': r'^< (md|m\.|re|rs|ret|panic)'}, rule=PROC_RULE, trusted=PROC_TRUSTED,
         assumptions=PROC_ASSUME['C01'],
@@ -93,7 +97,7 @@ PROPS = {
         assumptions=PROC_ASSUME['C02'],
     ),
     'C03': dict(
-        lean=['Props.C03', 'Props.FactsProc'],
+        lean=['Props.C03', 'Props.C03Spec', 'Props.FactsProc'],
         streams=['processor', 'e2e'],
         project={'processor': r'^< (md|m\.|re|rs|ret|panic)', 'e2e': r'^< config'}, rule=PROC_RULE, trusted=PROC_TRUSTED,
         assumptions=PROC_ASSUME['C03'],
@@ -105,14 +109,14 @@ PROPS = {
         assumptions=PROC_ASSUME['C04'],
     ),
     'C12': dict(
-        lean=['Props.C12', 'Props.FactsProc'],
+        lean=['Props.C12', 'Props.C12Spec', 'Props.FactsProc'],
         streams=['processor', 'fs'],
         project={'fs': r'^< (ret|panic)'},
         rule=PROC_RULE, trusted=PROC_TRUSTED,
         assumptions=PROC_ASSUME['C12'],
     ),
     'C13': dict(
-        lean=['Props.C13', 'Props.C13Parse', 'Props.FactsProc', 'Props.Pipeline'],
+        lean=['Props.C13', 'Props.C13Parse', 'Props.FactsProc', 'Props.FactsWiring', 'Props.Pipeline'],
         streams=['processor', 'e2e', 'parse'],
         rule=PROC_RULE, trusted=PROC_TRUSTED,
         assumptions=PROC_ASSUME['C13'],
@@ -124,7 +128,7 @@ PROPS = {
         assumptions=PROC_ASSUME['C17'],
     ),
     'C06': dict(
-        lean=['Props.C06', 'Props.C11Thr'],
+        lean=['Props.C06', 'Props.C11Thr', 'Props.PipeThr'],
         streams=['throttle'],
         rule='same schedules as C05 (five phase styles, base-recorder start/write/stop failures in 35% of cases, restarts in the middle of a trigger); '
              'non-trivial = at least one throttled event; distinct by op text',
@@ -157,7 +161,7 @@ PROPS = {
     ),
     'C10': dict(
         lean=['Props.C10'],
-        streams=['fs'],
+        streams=['fs', 'names'],
         project={'fs': r'^< (?!sys write)'},
         rule='op sequences of the real motion, test and continuous CPTVFileRecorders (start / write n frames / stop / discard) run under strace; every '
              'system call is a crash point at which the directory model is checked; each case ends with a simulated crash (open recordings abandoned), '
@@ -224,7 +228,7 @@ MANIFEST_TEXT = {
         technique='Lean 4 proof (product invariant of model x ghost x monitor, induction over the event list) + differential correspondence',
         design_ref='DESIGN.md 5/C02'),
     'C03': dict(
-        text='Theorem for all motion patterns, refused starts, bad frames, resets, all 0 <= minF <= maxF: a recording ends exactly at the first post-trigger frame p with p >= min(maxF, L(p)-1+minF); corollaries: post-trigger length < maxF while open, sustained motion yields max-length recordings that tile.',
+        text='Theorem for all motion patterns, refused starts, bad frames, resets, all 0 <= minF <= maxF: a recording ends exactly at the first post-trigger frame p with p >= min(maxF, L(p)-1+minF); corollaries: post-trigger length < maxF while open, sustained motion yields max-length recordings that tile. The length monitor is proved EQUIVALENT, for any trace, to a monitor-free rule (Props.C03Spec.monitor_exact: at every frame of every recording, the recording is stopped at that frame iff the frame count since the trigger has reached min(maxF, index of the last motion frame - 1 + minF)); c03_recording_bounds: with 1 <= minF <= maxF a stopped recording has minF..maxF post-trigger frames, exactly min(maxF, L-1+minF).',
         note=_COMMON_NOTE + 'the executable monitor that states the property is part of the trusted reading of the statement (lean/TR/ProcMon.lean, lean/TR/ThrMon.lean).',
         technique='Lean 4 proof (product invariant of model x ghost x monitor, induction over the event list) + differential correspondence',
         design_ref='DESIGN.md 5/C03'),
@@ -317,7 +321,7 @@ MANIFEST_TEXT = {
              'pattern: in every window of requests the frames forwarded to storage are at most cap + 1 + q*(tick_j - tick_i) (potential argument over the '
              'tick-level model of juju/ratelimit incl. its stale-latestTick early return; the +1 is shown attained). The model is compared call-for-call '
              'with the real ThrottledRecorder over the real bucket under an injected clock; the formulas cap = bucket-size*fps and rate = (min+preview)*fps/min-refill '
-             'are applied by the harness and must reproduce the real behaviour.',
+             'are applied by the harness and must reproduce the real behaviour. Props.C05Composed states the instance for the request sequences the motion-processor model produces on any frame stream (continuous motion included).',
         note=_COMMON_NOTE + "the library's float loop choosing (quantum, fillInterval) is measured, not modelled; main.go wiring is covered by regenerated facts / the e2e stream.",
         technique='Lean 4 proof (potential function, induction over the request list) + differential correspondence',
         design_ref='DESIGN.md 5/C05'),
